@@ -104,6 +104,12 @@ def run(pid, tier):
         if tier == "quick":
             scenarios.append(runlib.barrier_scenario(6, "first", chk.seed))
             scenarios.append(runlib.barrier_scenario(6, "last", chk.seed))
+        # a log listener attached to the run must not serialise the group either
+        for s, pos in ((4, "first"), (12, "middle")):
+            sc = runlib.barrier_scenario(s, pos, chk.seed)
+            sc["listener"] = True
+            sc["label"] += "-listener"
+            scenarios.append(sc)
         # members sharing one executable file (common command directory)
         for s, pos in ((2, "first"), (4, "middle"), (9, "last")) + (((17, "middle"), (33, "first")) if tier == "thorough" else ()):
             scenarios.append(runlib.barrier_scenario(s, pos, chk.seed, shared=True))
